@@ -1,6 +1,9 @@
 //! Configuration catalogue: which drivers run for which property, with which bounds.
 use crate::drivers::c01::{self, Mode};
 use crate::drivers::c02::{self, Kind};
+use crate::drivers::c07;
+use crate::drivers::c08;
+use crate::drivers::c09::{self, TrimReq};
 use crate::drivers::c14;
 use crate::drivers::c16;
 use crate::drivers::common::{Cfg, PolySpec};
@@ -216,6 +219,145 @@ pub fn catalogue(prop: &str, t: Tier, seed: u64) -> Vec<Entry> {
                 en.funcs = f.clone();
                 out.push(en);
             }
+        }
+        "C07" => {
+            let f = vec!["kzg10::KZG10::{commit,open_with_witness_polynomial}", "kzg10::Randomness::rand", "MarlinKZG10/SonicKZG10/InnerProductArgPC/MarlinPST13/HyraxPC::{commit,open}", "OptionalRng"];
+            let quick = t == Tier::Quick;
+            let mk = |sz: Size, polys: Vec<PolySpec>| { let mut c = Cfg::new(sz, polys); c.seed = seed; c.sym_rng = true; c.rng_nonzero = false; c };
+            let hs: Vec<usize> = if quick { vec![1, 2] } else { vec![1, 2, 3] };
+            for h in &hs {
+                let h = *h;
+                let c = mk(Size::uni(5, 4, 3), vec![PolySpec::new(2).hide(h)]);
+                let c2 = c.clone();
+                let mut en = e(format!("marlin/h{}", h), t, "coefficients, point, challenges, all blinding coefficients", format!("hiding bound {}, 2 coefficients", h), move || c07::marlin(&c2)); en.funcs = f.clone(); out.push(en);
+                let c2 = c.clone();
+                let mut en = e(format!("sonic/h{}", h), t, "coefficients, point, challenges, all blinding coefficients", format!("hiding bound {}, 2 coefficients", h), move || c07::sonic(&c2)); en.funcs = f.clone(); out.push(en);
+                let cb = mk(Size::uni(5, 4, 3), vec![PolySpec::new(2).hide(h).bound(2)]);
+                let c2 = cb.clone();
+                let mut en = e(format!("marlin/h{}-bound2", h), t, "coefficients, point, challenges, all blinding coefficients", format!("hiding bound {}, degree bound 2", h), move || c07::marlin(&c2)); en.funcs = f.clone(); if quick { en.lim.wall_s = 60.0; } out.push(en);
+                let c2 = cb.clone();
+                let mut en = e(format!("sonic/h{}-bound2", h), t, "coefficients, point, challenges, all blinding coefficients", format!("hiding bound {}, degree bound 2", h), move || c07::sonic(&c2)); en.funcs = f.clone(); if quick { en.lim.wall_s = 60.0; } out.push(en);
+            }
+            {
+                let c = mk(Size::uni(3, 3, 1), vec![PolySpec::new(2).hide(1)]);
+                let c2 = c.clone();
+                let mut en = e("ipa/h1".into(), t, "coefficients, blinding scalars", "hiding, 2 coefficients".into(), move || c07::ipa(&c2)); en.funcs = f.clone(); out.push(en);
+                let c = mk(Size::uni(3, 3, 1), vec![PolySpec::new(2).hide(1).bound(2)]);
+                let c2 = c.clone();
+                let mut en = e("ipa/h1-bound2".into(), t, "coefficients, blinding scalars", "hiding, degree bound 2".into(), move || c07::ipa(&c2)); en.funcs = f.clone(); out.push(en);
+                let c = mk(Size::mv(2, 2, 1), vec![PolySpec::new(2).hide(1)]);
+                let c2 = c.clone();
+                let mut en = e("pst13/h1".into(), t, "coefficients, point, challenge, blinding polynomial", "2 variables, degree 2 parameters, hiding bound 1".into(), move || c07::pst13(&c2)); en.funcs = f.clone(); if quick { en.lim.wall_s = 60.0; } out.push(en);
+                let c = mk(Size::mv(2, 1, 0), vec![PolySpec::new(1)]);
+                let c2 = c.clone();
+                let mut en = e("hyrax/rows-nv2".into(), t, "evaluations, row blinding scalars", "2 variables".into(), move || c07::hyrax(&c2)); en.funcs = f.clone(); out.push(en);
+            }
+        }
+        "C08" => {
+            let f = vec!["PolynomialCommitment::{setup,trim,commit}", "kzg10::KZG10::commit", "skip_leading_zeros_and_convert_to_bigints", "CommitterKey::shifted_powers", "LinearEncode::compute_matrices", "create_merkle_tree"];
+            let quick = t == Tier::Quick;
+            let mk = |sz: Size, polys: Vec<PolySpec>| { let mut c = Cfg::new(sz, polys); c.seed = seed; c.sym_rng = true; c };
+            let (maxd, sup) = if quick { (5, 3) } else { (7, 5) };
+            macro_rules! uni {
+                ($S:ty) => {{
+                    let name = <$S as Sch>::NAME;
+                    let plain = mk(Size::uni(maxd, sup, 0), vec![PolySpec::new(sup + 1)]);
+                    let c2 = plain.clone();
+                    let mut en = e(format!("{}/msm-plain", name), t, "all coefficients (so every leading/trailing-zero shape)", format!("{:?}, {} coefficients", plain.sz, sup + 1), move || c08::univariate_msm::<$S>(&c2));
+                    en.funcs = f.clone();
+                    out.push(en);
+                    for d in [sup - 1, sup] {
+                        let mut c = mk(Size::uni(maxd, sup, 0), vec![PolySpec::new(d + 1).bound(d), PolySpec::new(2).bound(sup)]);
+                        c.enforced = Some(vec![sup, d, d]);
+                        let c2 = c.clone();
+                        let mut en = e(format!("{}/msm-shifted-d{}", name, d), t, "all coefficients", format!("{:?}, bounds {} and {}, enforced list unsorted with duplicate", c.sz, d, sup), move || c08::univariate_msm::<$S>(&c2));
+                        en.funcs = f.clone();
+                        out.push(en);
+                    }
+                    let add = mk(Size::uni(maxd, sup, 0), vec![PolySpec::new(3), PolySpec::new(3)]);
+                    let c2 = add.clone();
+                    let mut en = e(format!("{}/additive", name), t, "coefficients of p and q, scalars a and b", format!("{:?}, 3 coefficients each", add.sz), move || c08::additive::<$S>(&c2));
+                    en.funcs = f.clone();
+                    if quick { en.lim.wall_s = 60.0; }
+                    out.push(en);
+                    let mut addb = mk(Size::uni(maxd, sup, 0), vec![PolySpec::new(2).bound(sup - 1), PolySpec::new(2).bound(sup - 1)]);
+                    addb.enforced = Some(vec![sup - 1]);
+                    let c2 = addb.clone();
+                    let mut en = e(format!("{}/additive-shifted", name), t, "coefficients of p and q, scalars a and b", format!("{:?}, 2 coefficients each, bound {}", addb.sz, sup - 1), move || c08::additive::<$S>(&c2));
+                    en.funcs = f.clone();
+                    out.push(en);
+                }};
+            }
+            uni!(Marlin);
+            uni!(Sonic);
+            uni!(Ipa);
+            {
+                let c = mk(Size::mv(2, 2, 0), vec![PolySpec::new(3)]);
+                let c2 = c.clone();
+                let mut en = e("pst13/msm".into(), t, "coefficients of all 6 monomials of degree <= 2 in 2 variables", format!("{:?}", c.sz), move || c08::pst13_msm(&c2));
+                en.funcs = f.clone();
+                out.push(en);
+                let c = mk(Size::mv(2, 2, 0), vec![PolySpec::new(3), PolySpec::new(3)]);
+                let c2 = c.clone();
+                let mut en = e("pst13/additive".into(), t, "coefficients of p and q, scalars a and b", format!("{:?}", c.sz), move || c08::additive::<Pst13>(&c2));
+                en.funcs = f.clone();
+                if quick { en.lim.wall_s = 60.0; }
+                out.push(en);
+            }
+            for nv in if quick { vec![2usize] } else { vec![2usize, 4] } {
+                let c = mk(Size::mv(nv, 1, 0), vec![PolySpec::new(1)]);
+                let c2 = c.clone();
+                let mut en = e(format!("hyrax/rows-nv{}", nv), t, "all evaluations, row blinding scalars", format!("{} variables", nv), move || c08::hyrax_rows(&c2));
+                en.funcs = f.clone();
+                out.push(en);
+            }
+            for n in if quick { vec![2usize, 4] } else { vec![2usize, 4, 6, 9] } {
+                let c = mk(Size::uni(8, 8, 0), vec![PolySpec::new(n)]);
+                let c2 = c.clone();
+                let mut en = e(format!("ligero-uni/root-n{}", n), t, "all coefficients", format!("{} coefficients, rho_inv 4", n), move || c08::lincode_root::<LigeroUni>(&c2, true));
+                en.funcs = f.clone();
+                if quick { en.lim.wall_s = 60.0; }
+                out.push(en);
+            }
+            {
+                let c = mk(Size::mv(2, 1, 0), vec![PolySpec::new(1)]);
+                let c2 = c.clone();
+                let mut en = e("ligero-ml/root-nv2".into(), t, "all evaluations", "2 variables, rho_inv 2".into(), move || c08::lincode_root::<LigeroMl>(&c2, true));
+                en.funcs = f.clone();
+                out.push(en);
+                let c2 = c.clone();
+                let mut en = e("brakedown/deterministic-nv2".into(), t, "all evaluations", "2 variables; only shape and determinism (no reference encoder)".into(), move || c08::lincode_root::<Brakedown>(&c2, false));
+                en.funcs = f.clone();
+                out.push(en);
+            }
+        }
+        "C09" => {
+            let f = vec!["kzg10::KZG10::setup", "streaming_kzg::CommitterKey::new", "MarlinKZG10::trim", "SonicKZG10::trim", "InnerProductArgPC::{setup,trim,sample_generators}", "HyraxPC::setup", "PreparedVerifierKey::prepare", "PreparedCommitment::prepare"];
+            let quick = t == Tier::Quick;
+            for d in if quick { vec![1usize, 2, 4] } else { vec![1usize, 2, 3, 4, 6, 8] } {
+                let mut en = e(format!("kzg10/srs-d{}", d), t, "trapdoor beta and the generators g, gamma*g, h (symbolic RNG)", format!("max_degree {}, with G2 powers", d), move || c09::kzg_srs(d, seed)); en.funcs = f.clone(); out.push(en);
+                let mut en = e(format!("streaming/srs-d{}", d), t, "trapdoor tau and the generators (symbolic RNG)", format!("max_degree {}, 2 evaluation points", d), move || c09::streaming_srs(d, 2, seed)); en.funcs = f.clone(); out.push(en);
+            }
+            // trim request grid around every boundary; the SRS is symbolic so a wrong index is a wrong term
+            let maxd = if quick { 4 } else { 6 };
+            let mut reqs: Vec<TrimReq> = vec![];
+            for sup in [1, 2, maxd - 1, maxd, maxd + 1] {
+                for hid in [0usize, 1, maxd, maxd + 1] {
+                    if hid > 1 && sup != maxd { continue; }
+                    let blists: Vec<Option<Vec<usize>>> = vec![None, Some(vec![]), Some(vec![1]), Some(vec![sup.min(maxd)]), Some(vec![sup.min(maxd), 1, 1, 2.min(sup)]), Some(vec![maxd + 1]), Some(vec![maxd])];
+                    for b in blists {
+                        if (hid > 1 || sup > maxd) && b != None { continue; }
+                        reqs.push(TrimReq { max_degree: maxd, supported: sup, hiding: hid, bounds: b });
+                    }
+                }
+            }
+            for (i, r) in reqs.into_iter().enumerate() {
+                let (r1, r2) = (r.clone(), r.clone());
+                let mut en = e(format!("marlin/trim-{}", i), t, "the whole SRS (symbolic trapdoor and generators)", format!("{:?}", r), move || c09::marlin_trim(&r1, seed)); en.funcs = f.clone(); out.push(en);
+                let mut en = e(format!("sonic/trim-{}", i), t, "the whole SRS (symbolic trapdoor and generators)", format!("{:?}", r), move || c09::sonic_trim(&r2, seed)); en.funcs = f.clone(); out.push(en);
+            }
+            let mut en = e("transparent/ipa-hyrax".into(), t, "nothing (input-free computations: executed and asserted, not solver-decided)", "IPA max_degree 1,3,6; Hyrax 2,4 variables".into(), move || c09::transparent(seed)); en.funcs = f.clone(); out.push(en);
+            let mut en = e("prepared/doublings".into(), t, "the SRS (symbolic)", "first 12 and last 4 of 255 doublings".into(), move || c09::prepared(seed)); en.funcs = f.clone(); out.push(en);
         }
         "C14" => {
             let f = vec!["streaming_kzg::CommitterKey::{new,commit,batch_commit,open,open_multi_points,batch_open_multi_points}", "CommitterKeyStream::{commit,open,open_multi_points,commit_folding}", "VerifierKey::{verify,verify_multi_points}", "FoldedPolynomialTree/Stream iterators"];
